@@ -98,11 +98,20 @@ def run(ctx):
                      "(maintenance operations on generated query histories through the public Db API)" % vlib.REPO)
     n, steps = (50, 30) if ctx.tier == "quick" else (1200, 60)
     r = run_db(ctx, "all", n, steps, variants="file,mapped,any_file,any_mapped", maintenance=True)
+    # index-heavy histories as well: several indexes created and removed in varying order before the maintenance operation
+    # (the order of the persisted index list vs the in-memory one only shows with >= 3 indexes and a removal in the middle)
+    ri = run_db(ctx, "index", n, steps + 10, variants="file,mapped,any_file,any_mapped", maintenance=True, sub="db_index", seed_off=4242)
+    r = dict(r)
+    for k in ("failures", "disagreements", "samples"):
+        r[k] = r[k] + ri[k]
+    for k in ("cases", "histories", "nontrivial"):
+        r[k] = r[k] + ri[k]
+    r["dist"] = dict(r["dist"]); r["dist"].update({"index:" + k: v for k, v in ri["dist"].items()})
     failures = [f for f in r["failures"] if f["cls"].startswith(("maintenance-", "variant-")) or f["cls"] in ("panic", "read-error")]
     failures += [f for f in spec_level(r) if f["cls"] == "model-mismatch"]
     disagreements = list(r["disagreements"])
     evaluations, nontrivial, samples, dist = r["cases"], r["nontrivial"], r["samples"], dict(r["dist"])
-    rule = ("%d generated query histories (profile all, <= %d steps) executed on DbMemory and side by side on DbFile, Db, DbAny(file), DbAny(mapped); with probability 1/12 per step and at the end each "
+    rule = ("%d generated query histories (profiles all and index, <= %d steps) executed on DbMemory and side by side on DbFile, Db, DbAny(file), DbAny(mapped); with probability 1/12 per step and at the end each "
             "file-backed database undergoes one random maintenance operation (reopen, optimize, shrink, backup_open, copy, rename, switch variant) with ordered dump + search battery compared before/after "
             "(maintenance-differs / maintenance-error), then the history continues on it; non-trivial = history with at least one maintenance operation" % (r["histories"], steps))
     if co is not None:
